@@ -108,7 +108,9 @@ var c03State = ref.State{
 }
 
 func init() {
-	c03State.Addrs = append(c03State.Addrs, ref.IP("2001:db8:1::1/64", "F"), ref.IP("fe80::1/64", ""), ref.IP("fd00:1::1/64", ""))
+	c03State.Addrs = append(c03State.Addrs, ref.IP("2001:db8:1::1/64", "F"), ref.IP("fe80::1/64", ""), ref.IP("fd00:1::1/64", ""),
+		// addresses with a mask longer than /64 (a DHCPv6 /128, a point-to-point /127): not part of any advertised /64
+		ref.IP("2001:db8:0:2::abcd/128", ""), ref.IP("2001:db8:0:3::1/127", ""), ref.IP("2001:db8:0:4:8000::1/65", ""))
 }
 
 func trunc(d, unit time.Duration) time.Duration { return d - d%unit }
@@ -397,6 +399,28 @@ func TestVerifC03(t *testing.T) {
 					}
 				}
 			}
+		}
+		// Duration keys under stanza kinds that do not have them today (a version that
+		// starts to accept one must range-check it like the others).
+		for _, kind := range []string{"prefix", "route", "rdnss", "dnssl", "pref64"} {
+			for _, key := range []string{"lifetime", "valid_lifetime", "preferred_lifetime"} {
+				for _, v := range c03Durations {
+					d := c03Base(false, wild)
+					i := &d.Ifaces[0]
+					t := map[string][]ref.Table{"prefix": i.Prefix, "route": i.Route, "rdnss": i.RDNSS, "dnssl": i.DNSSL, "pref64": i.PREF64}[kind][0]
+					if _, has := t[key]; has {
+						continue
+					}
+					t[key] = v
+					one([]string{kind + "." + key + "=" + v + " (key not defined for this stanza today)"}, d, 0)
+				}
+			}
+		}
+		// pref64 lifetimes around the 13-bit scaled limit (65528 s = 8191 * 8 s).
+		for _, v := range []string{"65527s", "65528s", "65529s", "65535s", "65535.5s", "65536s", "18h12m9s", "8s", "7s", "1s"} {
+			d := c03Base(false, wild)
+			d.Ifaces[0].PREF64[0]["lifetime"] = v
+			one([]string{"pref64.lifetime=" + v}, d, 0)
 		}
 		// Prefix and route stanzas over address-family and wildcard-spelling edge cases:
 		// whatever is accepted must survive the wire (the decoder refuses IPv4-mapped prefixes).
